@@ -33,7 +33,7 @@ def check_ctls(inp):
     M = ref.Model(K)
     exp = ref.star_eval(M, f)
     out = mc.call('CTLS', K, f, inp.get('naming', 'int'), inp.get('how', 0),
-                  form=inp.get('form', 'obj'))
+                  form=inp.get('form', 'obj'), atoms=inp.get('atoms'))
     if out == ('set', exp):
         return None
     note = ''
@@ -137,7 +137,7 @@ def enum_shard(st, shard, nshards, payload):
     idx = -1
     for (n, scope_name, stride) in payload['scopes']:
         forms = formula_scope(scope_name)
-        objs = [fm.to_lib(f, L, share={} if fi_ % 2 else None) for fi_, f in enumerate(forms)]
+        objs = {}
         rts = [sorted(routes(f)) for f in forms]
         nts = [is_nontrivial(f) for f in forms]
         for j, K in enumerate(scope_iter(n, stride, nshards)):
@@ -153,7 +153,9 @@ def enum_shard(st, shard, nshards, payload):
             M = ref.Model(K)
             naming = NAMINGS[idx % len(NAMINGS)]
             how = idx % 6
-            kripke = km.to_lib(K, naming, how)
+            ai = (idx // 2) % len(fm.ATOM_MAPS)
+            amap = fm.atom_map(ai)
+            kripke = km.to_lib(km.rename_labels(K, amap), naming, how)
             back = dict((km.name_of(naming)(i), i) for i in range(n))
             memo = {}
             for fi, f in enumerate(forms):
@@ -161,8 +163,11 @@ def enum_shard(st, shard, nshards, payload):
                     continue
                 exp = ref.star_eval(M, f, None, memo)
                 try:
+                    ok_ = (fi, ai if amap else None)
+                    if ok_ not in objs:
+                        objs[ok_] = fm.to_lib(fm.rename_atoms(f, amap), L, share={} if fi % 2 else None)
                     with core.quiet():
-                        res = L.modelcheck(kripke, objs[fi])
+                        res = L.modelcheck(kripke, objs[ok_])
                     out = mc.normalise(res, back)
                 except Exception as e:
                     out = ('exc', type(e).__name__, str(e)[:200])
@@ -174,7 +179,7 @@ def enum_shard(st, shard, nshards, payload):
                 for r in rts[fi]:
                     st.bump('route: ' + r)
                 if out != ('set', exp):
-                    inp = {'K': K, 'f': f, 'naming': naming, 'how': how, 'form': 'shared' if fi % 2 else 'obj'}
+                    inp = {'K': K, 'f': f, 'naming': naming, 'how': how, 'form': 'shared' if fi % 2 else 'obj', 'atoms': ai}
                     fresh = check_ctls(inp)
                     if fresh is None:
                         st.add_extra('mismatch_only_with_reused_structure')
@@ -253,6 +258,7 @@ def random_shard(st, shard, nshards, payload):
         'f': fm.st_formula('ctls_state', max_depth=4, max_temporal=3),
         'naming': hs.sampled_from(NAMINGS),
         'how': hs.integers(0, 5),
+        'atoms': hs.integers(0, len(fm.ATOM_MAPS) - 1),
         'form': hs.sampled_from(FORMS),
         'extra': hs.integers(0, 600),
     })
